@@ -4073,6 +4073,14 @@ def _walk_working_dir_paths(
             if dirpath != basepath:
                 continue
 
+        # os.walk() lists a symlink to a directory among the directories
+        # (without descending into it). In a work tree it is a file like any
+        # other symlink.
+        for dirname in list(dirnames):
+            if os.path.islink(os.path.join(dirpath, dirname)):  # type: ignore[call-overload]
+                dirnames.remove(dirname)
+                filenames.append(dirname)
+
         if precompose_unicode and isinstance(dirpath, str):
             dirpath = _precompose_unicode_path(dirpath)
             dirnames[:] = [
